@@ -26,13 +26,14 @@ type closeSyncCase struct {
 	N         int // advertisements to sync per publisher
 	Listeners int
 	Closers   int
+	Seg       int64 // segment depth limit of the subscriber (-1 / 0: none): the count covers all segments
 }
 
 func TestC14_CloseDuringSync(t *testing.T) {
 	pbt.Run(t, pbt.Config{Prop: "C14", Unit: "TestC14_CloseDuringSync", TrackCurrent: true,
-		Rule: "1..3 publishers, one explicit sync each parked at its first block request; 1..3 listeners reading continuously; Close is called 1..2 times while the syncs are parked, then every gate opens; oracle at exact quiescence: every sync returns its head without error; the reference listener and every listener hold exactly one success notification per publisher with that head and the number of blocks synced, and then see their channel closed; Close returns nil. Non-trivial: Close was in progress (new explicit syncs were refused) while the syncs were still parked; distinct by case.",
+		Rule: "1..3 publishers with 1..5 new advertisements, one explicit sync each (unsegmented or in segments of 1 or 2) parked at its first block request; 1..3 listeners reading continuously; Close is called 1..2 times while the syncs are parked, then every gate opens; oracle at exact quiescence: every sync returns its head without error; the reference listener and every listener hold exactly one success notification per publisher with that head and the number of blocks synced, and then see their channel closed; Close returns nil. Non-trivial: Close was in progress (new explicit syncs were refused) while the syncs were still parked; distinct by case.",
 	}, func(t *rapid.T) closeSyncCase {
-		return closeSyncCase{K: rapid.IntRange(1, 3).Draw(t, "k"), N: rapid.IntRange(1, 3).Draw(t, "n"), Listeners: rapid.IntRange(1, 3).Draw(t, "listeners"), Closers: rapid.IntRange(1, 2).Draw(t, "closers")}
+		return closeSyncCase{K: rapid.IntRange(1, 3).Draw(t, "k"), N: rapid.IntRange(1, 5).Draw(t, "n"), Listeners: rapid.IntRange(1, 3).Draw(t, "listeners"), Closers: rapid.IntRange(1, 2).Draw(t, "closers"), Seg: rapid.SampledFrom([]int64{-1, 1, 2}).Draw(t, "seg")}
 	}, func(c closeSyncCase) (res pbt.Result) {
 		var viol string
 		defer func() {
@@ -46,7 +47,11 @@ func TestC14_CloseDuringSync(t *testing.T) {
 		synctest.Test(t, func(t *testing.T) {
 			w := world.New()
 			defer w.Close()
-			e, err := world.NewExec(w, world.Script{K: c.K}, false, dagsync.SegmentDepthLimit(-1))
+			seg := c.Seg
+			if seg == 0 {
+				seg = -1
+			}
+			e, err := world.NewExec(w, world.Script{K: c.K}, false, dagsync.SegmentDepthLimit(seg))
 			if err != nil {
 				viol = err.Error()
 				return
